@@ -12,9 +12,10 @@ EXPLANATION = (
     "EnvelopeCase::Elided carries exactly one Digest = [u8;32] newtype and the encoder's Elided arm emits exactly "
     "untagged_cbor(that digest) - no field in which residue could live. C03.4: the routine recurses into each of the five child "
     "kinds exactly once with target/mode/action unchanged. C03.5: unelide's Ok exit is dominated by the passing edge of "
-    "digest(self) == digest(argument) and returns the argument. Does not decide byte-level residue or ciphertext opacity.")
+    "digest(self) == digest(argument) and returns the argument. Does not decide byte-level residue or ciphertext opacity."
+    " C03.6: every elide_removing_* entry point passes is_revealing = false (or delegates to a removing one), every elide_revealing_* passes true, over the caller's target.")
 TRUSTED = ['HashSet::contains is set membership', 'Digest::untagged_cbor is the 32-byte string']
-FLOORS = {'C03.1': 1, 'C03.2': 3, 'C03.4': 5, 'C03.5': 1}
+FLOORS = {'C03.1': 1, 'C03.2': 3, 'C03.4': 5, 'C03.5': 1, 'C03.6': 8}
 
 
 def check(ctx):
@@ -86,3 +87,31 @@ def check(ctx):
             ctx.ok('C03.5', ctx.site(b, bi, si), 'Ok(argument) dominated by digest(self) == digest(argument); ' + info, sample=fmt(gs[0]))
         else:
             ctx.fail('C03.5', ctx.site(b, bi, si), 'accept exit not dominated by the digest comparison: ' + info, key='C03.5|dominance')
+    # ---- C03.6 the removing / revealing entry points keep their mode: every elide_removing_* passes is_revealing = false (or delegates to
+    # another removing entry point), every elide_revealing_* passes true, the target and the action are the caller's
+    F = ctx.F
+    P1 = ('param', 1)
+    n = 0
+    for b in F.bodies:
+        if not (b.impl_self and b.impl_self.endswith('::Envelope') and '{closure' not in b.path):
+            continue
+        mode = 'revealing' if b.name.startswith('elide_revealing_') else 'removing' if b.name.startswith('elide_removing_') else None
+        if mode is None:
+            continue
+        n += 1
+        rt = strip_sites(detry(TermBuilder(F, b).return_term()))
+        c = callee_of(rt) if rt[0] == 'call' else None
+        good, why = False, fmt(rt)[:160]
+        if c is not None and c.name.startswith('elide_') and rt[2] and strip_sites(rt[2][0]) == P1:
+            bools = [strip_sites(a) for a in rt[2][1:] if strip_sites(a)[0] == 'bool']
+            if bools:
+                good = len(bools) == 1 and bools[0][1] == (mode == 'revealing')
+            else:
+                good = c.name.startswith('elide_' + mode + '_')
+            # the caller's target is handed on (as it is, or as the set / array built from it)
+            good = good and len(rt[2]) >= 2 and contains(rt[2][1], lambda y: y == ('param', 2))
+        if good:
+            ctx.ok('C03.6', ctx.site(b), '%s keeps its mode (%s) and hands on the caller\'s target' % (b.name, mode), nontrivial=False)
+        else:
+            ctx.fail('C03.6', ctx.site(b), '%s does not delegate with is_revealing = %s over the caller\'s target: %s' % (b.name, str(mode == 'revealing').lower(), why), key='C03.6|' + b.name)
+    ctx.need('C03.6', n >= 8, 'elide_removing_* / elide_revealing_* entry points')
